@@ -67,10 +67,6 @@ func (r *FunctionData[T]) UpdateData(remoteWrite, persist bool, newData *T, filt
 		return nil, model.NewErrorTypeFromString(fmt.Sprintf("partial updates are not supported for type '%s'", util.Type[T]().Name()))
 	}
 
-	if r.data == nil {
-		r.data = new(T)
-	}
-
 	// Apply the update to a copy of the data that has its own lists. The update changes
 	// the items of the list it is applied to, but the stored data must not change if the
 	// update fails or should not be persisted, and the data sets that were handed out
@@ -92,6 +88,11 @@ func (r *FunctionData[T]) UpdateData(remoteWrite, persist bool, newData *T, filt
 
 // returns a copy of the data in which every list is a copy of the original list
 func (r *FunctionData[T]) copyWithOwnLists() *T {
+	// without stored data the update is applied to empty data
+	if r.data == nil {
+		return new(T)
+	}
+
 	copiedData := *r.data
 
 	v := reflect.ValueOf(&copiedData).Elem()
